@@ -1,6 +1,7 @@
 package c12
 
 import (
+	"crypto/ed25519"
 	"crypto/rand"
 	"crypto/sha256"
 	"encoding/binary"
@@ -20,6 +21,9 @@ type slink struct {
 	mu     sync.Mutex
 	closed bool // closed by us or found closed by the client
 	seqUp  uint64
+	// authenticated mode: the nonces of the latest tcp.authentificate exchange on this link
+	clientNonce, srvNonce []byte
+	authed                atomic.Bool // a valid tcp.authentificationComplete has arrived
 }
 
 // arrival of a scripted query
@@ -50,7 +54,16 @@ type server struct {
 	outageStart time.Time
 	outageEnd   time.Time
 	nCorrupt    atomic.Int64 // frames of the client that did not decrypt to a valid frame
-	wg          sync.WaitGroup
+	// splitEvery > 0: every splitEvery-th packet with a body is written in two pieces with a pause of splitMs in between;
+	// the cut position cycles through the regions of a frame (size prefix after 1, 2, 3 bytes, nonce, payload, checksum)
+	authMode   bool
+	splitOn    atomic.Bool
+	splitEvery int
+	splitMs    int
+	nSplit     atomic.Int64
+	nAuthOK    atomic.Int64 // tcp.authentificationComplete packets with a valid signature over client nonce || server nonce
+	nAuthBad   atomic.Int64
+	wg         sync.WaitGroup
 }
 
 func newScriptedServer(rec *recorder, seedText string, seed int64, scripted int) (*server, error) {
@@ -135,6 +148,26 @@ func (sv *server) serve(c *adnlsrv.Conn, port string) {
 			return
 		}
 		switch magicOf(pl) {
+		case magicAuth:
+			// authenticated mode: answer the client's nonce with ours
+			if n, ok := tlBytesDecode(pl[4:]); ok {
+				sv.sendAuthNonce(l, append([]byte(nil), n...))
+			}
+		case magicPubKey, magicAuthComplete:
+			// tongo writes the PublicKey constructor over the authentificationComplete constructor: key at [4:36], signature follows
+			if len(pl) >= 37 {
+				if sig, ok := tlBytesDecode(pl[36:]); ok {
+					l.mu.Lock()
+					msg := append(append([]byte{}, l.clientNonce...), l.srvNonce...)
+					l.mu.Unlock()
+					if len(sig) == ed25519.SignatureSize && ed25519.Verify(ed25519.PublicKey(pl[4:36]), msg, sig) {
+						sv.nAuthOK.Add(1)
+						l.authed.Store(true)
+					} else {
+						sv.nAuthBad.Add(1)
+					}
+				}
+			}
 		case magicPing:
 			if len(pl) == 12 && !sv.muted(port) {
 				sv.send(l, "srv.pong", nil, "", framePong(pl[4:12]))
@@ -193,12 +226,53 @@ func (sv *server) answerFor(id []byte) []byte {
 	return out[:n]
 }
 
+// sendAuthNonce sends tcp.authentificationNonce (a fresh server nonce) on the link; clientNonce != nil starts a new exchange.
+func (sv *server) sendAuthNonce(l *slink, clientNonce []byte) bool {
+	n := randomID()
+	l.mu.Lock()
+	if clientNonce != nil {
+		l.clientNonce = clientNonce
+	}
+	l.srvNonce = n
+	l.mu.Unlock()
+	p := binary.LittleEndian.AppendUint32(nil, magicAuthNonce)
+	return sv.send(l, "srv.authnonce", nil, "", append(p, tlBytes(n)...))
+}
+
+// cutPos is the number of bytes written before the pause: class 1..3 inside the size prefix, 4 inside the nonce,
+// 5 inside the payload (the nonce if the payload is empty), 6 inside the checksum. n = 4 + 32 + len(payload) + 32.
+func cutPos(class, n int) int {
+	switch class {
+	case 1, 2, 3:
+		return class
+	case 4:
+		return 4 + 13
+	case 5:
+		if n > 68 {
+			return 36 + (n-68)/2
+		}
+		return 4 + 29
+	default:
+		return n - 9
+	}
+}
+
 // send logs the action and then writes the packet, both under the link's lock (the log order is the wire order).
 func (sv *server) send(l *slink, kind string, id []byte, h string, payload []byte) bool {
+	return sv.sendCut(l, kind, id, h, payload, 0, 0)
+}
+
+// sendCut is send with the frame written in two pieces (cut class 1..6, pause ms); class 0 follows the server's split policy.
+func (sv *server) sendCut(l *slink, kind string, id []byte, h string, payload []byte, class, ms int) bool {
 	l.mu.Lock()
 	defer l.mu.Unlock()
 	if l.closed {
 		return false
+	}
+	if class == 0 && sv.splitEvery > 0 && kind != "srv.pong" && sv.splitOn.Load() {
+		if c := sv.nSplit.Add(1); c%int64(sv.splitEvery) == 0 {
+			class, ms = int((c/int64(sv.splitEvery))%6)+1, sv.splitMs
+		}
 	}
 	m := map[string]any{"k": kind, "port": l.port}
 	if id != nil {
@@ -207,11 +281,23 @@ func (sv *server) send(l *slink, kind string, id []byte, h string, payload []byt
 	if h != "" {
 		m["h"] = h
 	}
+	if class > 0 {
+		m["cut"] = class
+	}
 	sv.rec.emit(m)
-	if err := l.c.SendPacket(payload); err != nil {
+	if class == 0 {
+		return l.c.SendPacket(payload) == nil
+	}
+	n, err := l.c.Queue(payload)
+	if err != nil {
 		return false
 	}
-	return true
+	if _, err := l.c.Flush(cutPos(class, n)); err != nil {
+		return false
+	}
+	time.Sleep(time.Duration(ms) * time.Millisecond)
+	_, err = l.c.Flush(-1)
+	return err == nil
 }
 
 // closeLink closes the socket; ours=true is the server's own decision (SrvDrop), logged before the close.
@@ -259,7 +345,7 @@ func (sv *server) openLinks() []*slink {
 	var out []*slink
 	for _, l := range ls {
 		l.mu.Lock()
-		if !l.closed {
+		if !l.closed && (!sv.authMode || l.authed.Load()) { // an authenticated link is usable once the exchange is complete
 			out = append(out, l)
 		}
 		l.mu.Unlock()
